@@ -9,8 +9,11 @@
    before ([no_overlap], the test the function itself makes; one range per message, merged runs, unordered lists and
    repeated ranges for re-executed messages all qualify).
 
-   The multi-round part of C09 (Outcome over rounds, selectReport, liveness) is NOT covered here:
-   C09_cycle_liveness and the history-level reading of C09_never_reexecuted are left open (partial). *)
+   The multi-round part of C09 (Outcome over rounds, selectReport, liveness) has NO theorem here: C09_cycle_liveness and
+   the history-level reading of C09_never_reexecuted / C09_pending_exact are partial - they are monitored on real
+   four-oracle histories by the harness (sink C09_history: outcome of every round against [filter_executed] on the
+   world snapshot of the cycle's first observation, under the same-view / everything-ready conditions named in
+   Check/C09_check.v), not proved. *)
 Require Import Verif.Model.Base Verif.Model.ExecPending Verif.Proofs.ExecPendingP.
 Local Open Scope N_scope.
 
